@@ -170,6 +170,7 @@ def _to_poly(t, symbols: dict):
         a, b = _to_poly(t[2], symbols), _to_poly(t[3], symbols)
         return a + b if t[1] == '+' else a - b if t[1] == '-' else a * b
     if t[0] == 'call' and t[1] == ('attr', ('var', 'jnp'), 'arange') and len(t[2]) == 1:
+        symbols.setdefault('__arange__', []).append(t[2][0])
         return Poly.atom(('sym', 't'))
     raise ValueError(show(t))
 
@@ -213,21 +214,23 @@ def _dense_builder(ck, world: World) -> None:
             ck.incomplete('Z9', loop, 'the loop body does not branch on the sign of the offset', instance='branches')
             return
         nbranch += 1
-        value = e.get('value')
-        ok_val = value == ('sub', pre.get('band_values', ('var', 'band_values')), ('call', ('var', 'abs'), (('var', j),), ())) or (value is not None and value[0] == 'sub' and value[2] == ('call', ('var', 'abs'), (('var', j),), ()))
         setcall = None
         for st in p.stmts():
             if isinstance(st, ast.Assign) and isinstance(st.value, ast.Call) and isinstance(st.value.func, ast.Attribute) and st.value.func.attr == 'set':
                 setcall = term(st.value, path_env(p, upto=st))
-        idx_t = m_t = None
+        idx_t = None
+        ok_val = False
         if setcall is not None and setcall[1][1][0] == 'sub':
             idx_t = setcall[1][1][2]
             written = setcall[2][0] if setcall[2] else None
-            ok_val = ok_val and written == value
+            ok_val = written is not None and written[0] == 'sub' and written[2] == ('call', ('var', 'abs'), (('var', j),), ())
         inst = 'upper diagonals (j >= 0)' if nonneg else 'lower diagonals (j < 0)'
+        symbols.pop('__arange__', None)
         try:
             k = _to_poly(idx_t, symbols) if idx_t is not None else None
-            m = _to_poly(e['m'], symbols) if 'm' in e else None
+            ar = symbols.pop('__arange__', [])
+            m = _to_poly(ar[0], symbols) if len(ar) == 1 else None
+            symbols.pop('__arange__', None)
         except (ValueError, KeyError) as exc:
             ck.incomplete('Z9', loop, f'index arithmetic outside the polynomial language: {exc}', instance=inst)
             continue
